@@ -13,6 +13,15 @@
 //!    dial-back is started) and the completion of each dial (`DialFailure` / `ConnectionEstablished`
 //!    by connection id).
 //!  * the `SimTransport` dial records — every address the server's transport was asked to dial.
+//!
+//! "At most one dial-back per peer": a dial-back runs from the behaviour's `ToSwarm::Dial` until the Swarm
+//! reports the end of that connection id's dial. A second one for the same peer in that span is
+//! `C50:concurrent-dial-backs-for-one-peer` unless it is one of two known findings, which are only granted on
+//! the strength of what the harness did itself (see `Ended`): it closed the very connection the earlier
+//! probe's accepted request arrived on (`Tap` records that connection per probe), or a dial of the server to
+//! the peer that was *not* a dial-back (`Op::ServerDial`) failed — and the server ended the earlier probe with
+//! the matching event. A probe the server ended for any other reason (e.g. the failure of *another* request of
+//! the peer), or dropped silently, does not excuse the second dial-back.
 use super::demanded_addr;
 use futures::{AsyncReadExt, AsyncWriteExt, FutureExt};
 use libp2p_autonat::v1 as autonat;
@@ -85,7 +94,27 @@ pub enum Op {
     /// a DialRequest on connection `conn` (pick among live ones); `claim` = peer id in the message
     /// (None = the sender's); `hold` = do not let the server run before the next op; `abandon` =
     /// the client drops its stream right after writing
-    Request { conn: u16, claim: Option<u8>, addrs: Vec<ReqAddr>, hold: bool, abandon: bool },
+    /// `stall` = the client's receive window on that stream only has room for the multistream-select
+    /// answer: the server's response write blocks until the stream is reset (`Reset`) - "the client resets
+    /// the stream before reading the response"
+    Request {
+        conn: u16,
+        claim: Option<u8>,
+        addrs: Vec<ReqAddr>,
+        hold: bool,
+        abandon: bool,
+        #[serde(default)]
+        stall: bool,
+    },
+    /// the client resets (drops) one of its request streams whose response it has not read yet
+    /// (pick among them; a stalled one or the stream of an accepted request whose dial-back is pending)
+    Reset { pick: u16 },
+    /// the server's own Swarm (the application / another behaviour - NOT the autonat behaviour) dials client
+    /// `peer` at an address that is in no dial-back list: how 0 = PeerCondition::Always, transport resolves ok
+    /// at once; 1 = Always, transport error at once; 2 = Always, left open (later `Resolve` ops decide);
+    /// 3 = default PeerCondition (DisconnectedAndNotDialing: refused synchronously by the Swarm while the
+    /// peer is connected or being dialed)
+    ServerDial { peer: u8, how: u8 },
     /// decide one open transport dial of the server: 0 = connected (as the expected peer),
     /// 1 = transport error, 2 = connected but authenticated as another peer
     Resolve { pick: u16, how: u8 },
@@ -116,20 +145,54 @@ struct DialRec {
     conn: u64,
     peer: Option<PeerId>,
     probe: Option<autonat::ProbeId>,
+    /// server-side connection id of the connection the accepted request arrived on (the connection whose
+    /// handler reported the last event before the server emitted InboundProbeEvent::Request)
+    req_conn: Option<u64>,
     /// observed addresses of the requester's non-relayed connections when the command was emitted
     allowed: Vec<Multiaddr>,
     addrs: Option<Vec<Multiaddr>>,
     finished: Option<&'static str>,
-    /// the server reported the end of the probe (response sent / error) before the dial finished
-    probe_ended_first: bool,
+    /// the server reported the end of the probe (response sent / error) before the dial finished, and why
+    /// (as far as the harness can tell from what it did itself)
+    ended: Option<Ended>,
+    /// text of the server's terminal event for the probe (diagnostics)
+    ended_event: Option<String>,
+    /// while this dial-back was running and its probe not ended, a dial of the server to the same peer that
+    /// was NOT started by the autonat behaviour (harness `ServerDial`) failed
+    foreign_failure_seen: bool,
     at: Instant,
 }
+
+/// Why a probe was ended by the server before its own Swarm dial finished.
+#[derive(Clone, Copy, Debug, PartialEq, Eq)]
+enum Ended {
+    /// the harness had closed the very connection the accepted request arrived on (request-response
+    /// reports InboundFailure::ConnectionClosed for that request): known finding
+    OwnConnClosedByHarness,
+    /// a dial to the peer that was not a dial-back (harness `ServerDial`) failed and the server answered the
+    /// probe with DialError
+    ForeignDialFailure,
+    /// anything else: the probe's own request stream and connection were intact as far as the harness knows
+    Other,
+}
+
+const SIG_CONCURRENT: &str = "C50:concurrent-dial-backs-for-one-peer";
+const SIG_KNOWN_CLOSED: &str = "C50:new-dial-back-while-dial-of-ended-probe-still-pending";
+const SIG_FOREIGN: &str = "C50:new-dial-back-after-unrelated-dial-failure-ended-probe";
 
 #[derive(Default)]
 struct TapState {
     live: BTreeMap<u64, LiveConn>,
     dials: Vec<DialRec>,
-    last_request: Option<(autonat::ProbeId, PeerId)>,
+    last_request: Option<(autonat::ProbeId, PeerId, Option<u64>)>,
+    /// connection whose handler reported the most recent event to the behaviour
+    last_handler_conn: Option<u64>,
+    /// server-side ids of connections the harness (playing the remote) has closed
+    harness_closed: BTreeSet<u64>,
+    /// peers for which a soft (known) concurrent dial-back has happened and which have had an unfinished
+    /// dial-back ever since: the server's per-peer bookkeeping is then known to be off (dial outcomes are
+    /// attributed to the wrong probe), so further concurrent dial-backs are attributed to the same finding
+    taint: BTreeMap<PeerId, &'static str>,
     /// (connection id, peer, address, dialer) for every establishment
     established: Vec<(u64, PeerId, Multiaddr, bool)>,
     viol: Vec<(String, Value)>,
@@ -221,6 +284,11 @@ impl NetworkBehaviour for Tap {
                 FromSwarm::DialFailure(e) => {
                     if let Some(d) = st.dials.iter_mut().find(|d| d.conn == cid(e.connection_id)) {
                         d.finished.get_or_insert("failed");
+                    } else if let Some(p) = e.peer_id {
+                        // not a dial-back: a dial started through Swarm::dial by the harness
+                        for d in st.dials.iter_mut().filter(|d| d.peer == Some(p) && d.finished.is_none() && d.ended.is_none()) {
+                            d.foreign_failure_seen = true;
+                        }
                     }
                 }
                 _ => {}
@@ -229,6 +297,7 @@ impl NetworkBehaviour for Tap {
         self.inner.on_swarm_event(event)
     }
     fn on_connection_handler_event(&mut self, p: PeerId, c: ConnectionId, e: THandlerOutEvent<Self>) {
+        self.st.lock().unwrap().last_handler_conn = Some(cid(c));
         self.inner.on_connection_handler_event(p, c, e)
     }
     fn poll(&mut self, cx: &mut Context<'_>) -> Poll<ToSwarm<Self::ToSwarm, THandlerInEvent<Self>>> {
@@ -240,34 +309,58 @@ impl NetworkBehaviour for Tap {
                     let peer = opts.get_peer_id();
                     let allowed: Vec<Multiaddr> = st.live.values().filter(|c| Some(c.peer) == peer && !c.relayed).map(|c| c.addr.clone()).collect();
                     if let Some(p) = peer {
-                        if let Some(prev) = st.dials.iter().find(|d| d.peer == Some(p) && d.finished.is_none()) {
-                            let (sig, what) = if prev.probe_ended_first {
-                                ("C50:new-dial-back-while-dial-of-ended-probe-still-pending", "a dial-back was started for a peer while the dial of an earlier dial-back for the same peer (whose probe the server had already ended) was still in progress")
-                            } else {
-                                ("C50:concurrent-dial-backs-for-one-peer", "a dial-back was started for a peer while another dial-back for the same peer was still in progress")
-                            };
-                            let d = json!({"what": what, "peer": p.to_string(), "pending_dial_connection": prev.conn, "pending_dial_addresses": prev.addrs.as_ref().map(|a| strs(a)), "new_dial_connection": cid(opts.connection_id())});
-                            if prev.probe_ended_first {
-                                st.soft.get_or_insert((sig.to_string(), d));
-                            } else {
-                                st.viol.push((sig.to_string(), d));
+                        let prev = st.dials.iter().filter(|d| d.peer == Some(p) && d.finished.is_none()).map(|d| (d.conn, d.addrs.clone(), d.ended, d.ended_event.clone(), d.req_conn)).last();
+                        match prev {
+                            None => {
+                                st.taint.remove(&p);
+                            }
+                            Some((pconn, paddrs, ended, ended_event, req_conn)) => {
+                                let tainted = st.taint.get(&p).copied();
+                                let (sig, what): (&'static str, &str) = match (tainted, ended) {
+                                    (Some(sig), _) => (sig, "a dial-back was started for a peer while an earlier dial-back for it was still in progress, after the known finding of this signature had already happened for this peer and dial-backs for it have been pending ever since (follow-up of that finding: dial outcomes are attributed to the wrong probe)"),
+                                    (None, Some(Ended::OwnConnClosedByHarness)) => (SIG_KNOWN_CLOSED, "a dial-back was started for a peer while the dial of an earlier dial-back for the same peer was still in progress; the server had ended that earlier probe because the client closed the connection its accepted request had arrived on"),
+                                    (None, Some(Ended::ForeignDialFailure)) => (SIG_FOREIGN, "a dial-back was started for a peer while the dial of an earlier dial-back for the same peer was still in progress; the server had ended that earlier probe (DialError) because a dial to the peer that was not a dial-back failed"),
+                                    (None, Some(Ended::Other)) => (SIG_CONCURRENT, "a dial-back was started for a peer while the dial of an earlier dial-back for the same peer was still in progress; the server had reported the end of the earlier probe although the connection its accepted request arrived on was intact and no unrelated dial had failed"),
+                                    (None, None) => (SIG_CONCURRENT, "a dial-back was started for a peer while another dial-back for the same peer was still in progress (its probe not ended)"),
+                                };
+                                let d = json!({"what": what, "peer": p.to_string(), "pending_dial_connection": pconn, "pending_dial_addresses": paddrs.as_ref().map(|a| strs(a)),
+                                    "pending_probe_ended_by_server_with": ended_event, "harness_classification_of_that_end": ended.map(|e| format!("{e:?}")),
+                                    "connection_the_pending_probes_request_arrived_on": req_conn, "connections_closed_by_the_harness": st.harness_closed.iter().collect::<Vec<_>>(),
+                                    "new_dial_connection": cid(opts.connection_id())});
+                                if sig == SIG_CONCURRENT {
+                                    st.viol.push((sig.to_string(), d));
+                                } else {
+                                    st.taint.insert(p, sig);
+                                    st.soft.get_or_insert((sig.to_string(), d));
+                                }
                             }
                         }
                     }
-                    let probe = match st.last_request.take() {
-                        Some((id, p)) if Some(p) == peer => Some(id),
-                        _ => None,
+                    let (probe, req_conn) = match st.last_request.take() {
+                        Some((id, p, c)) if Some(p) == peer => (Some(id), c),
+                        _ => (None, None),
                     };
-                    st.dials.push(DialRec { conn: cid(opts.connection_id()), peer, probe, allowed, addrs: None, finished: None, probe_ended_first: false, at: Instant::now() });
+                    st.dials.push(DialRec { conn: cid(opts.connection_id()), peer, probe, req_conn, allowed, addrs: None, finished: None, ended: None, ended_event: None, foreign_failure_seen: false, at: Instant::now() });
                 }
                 ToSwarm::GenerateEvent(autonat::Event::InboundProbe(ev)) => match ev {
-                    autonat::InboundProbeEvent::Request { probe_id, peer, .. } => st.last_request = Some((*probe_id, *peer)),
+                    autonat::InboundProbeEvent::Request { probe_id, peer, .. } => st.last_request = Some((*probe_id, *peer, st.last_handler_conn)),
                     autonat::InboundProbeEvent::Response { probe_id, .. } | autonat::InboundProbeEvent::Error { probe_id, .. } => {
                         if let autonat::InboundProbeEvent::Error { error, .. } = ev {
                             st.refusals.push(format!("{error:?}"));
                         }
-                        for d in st.dials.iter_mut().filter(|d| d.probe == Some(*probe_id) && d.finished.is_none()) {
-                            d.probe_ended_first = true;
+                        let dial_error = matches!(ev, autonat::InboundProbeEvent::Error { error: autonat::InboundProbeError::Response(autonat::ResponseError::DialError), .. });
+                        let inbound_failure = matches!(ev, autonat::InboundProbeEvent::Error { error: autonat::InboundProbeError::InboundRequest(_), .. });
+                        let text: String = format!("{ev:?}").chars().take(160).collect();
+                        let closed = st.harness_closed.clone();
+                        for d in st.dials.iter_mut().filter(|d| d.probe == Some(*probe_id) && d.finished.is_none() && d.ended.is_none()) {
+                            d.ended = Some(if dial_error && d.foreign_failure_seen {
+                                Ended::ForeignDialFailure
+                            } else if inbound_failure && d.req_conn.map(|c| closed.contains(&c)).unwrap_or(false) {
+                                Ended::OwnConnClosedByHarness
+                            } else {
+                                Ended::Other
+                            });
+                            d.ended_event = Some(text.clone());
                         }
                     }
                 },
@@ -354,6 +447,8 @@ struct Conn {
     ctl: MuxCtl,
     alive: bool,
     dial_back: bool,
+    /// the server's ConnectionId of this connection (None if the establishment was not observed)
+    sid: Option<u64>,
 }
 
 struct Req {
@@ -365,6 +460,8 @@ struct Req {
     /// has >= 1 address that can never be valid and >= 1 single-IP address without relay / foreign p2p
     mixed: bool,
     attributed: bool,
+    /// the client's receive window is too small for the response and the harness never reads from it
+    stalled: bool,
     /// at the time it was sent the harness saw an unfinished dial-back for the sender
     sent_while_dialing: bool,
     /// at the time it was sent the sender / the server was at its throttle limit (long period only)
@@ -394,6 +491,12 @@ struct Run {
     accepted: Vec<Accepted>,
     /// links resolved ok and not yet matched to an establishment: (link, address, peer)
     ok_links: Vec<(usize, Multiaddr, u8)>,
+    /// addresses (with /p2p) the harness made the server's Swarm dial itself (`ServerDial`)
+    harness_dials: Vec<Multiaddr>,
+    /// peers for which, during a still running dial-back, (1) the stalled stream of a refused request was
+    /// reset / (2) an unrelated outbound connection of the server was established / (3) an unrelated dial of
+    /// the server failed
+    armed: [BTreeSet<u8>; 3],
     labels: BTreeSet<&'static str>,
     fail: Option<(String, Value)>,
     unsettled: bool,
@@ -448,6 +551,8 @@ impl Run {
             seen_est: 0,
             accepted: vec![],
             ok_links: vec![],
+            harness_dials: vec![],
+            armed: Default::default(),
             labels: BTreeSet::new(),
             fail: None,
             unsettled: false,
@@ -484,14 +589,18 @@ impl Run {
         }
 
         // new connections of the server: dial-back connections become client connections too
-        for (_, peer, addr, dialer) in st.established[self.seen_est..].iter() {
+        for (sid, peer, addr, dialer) in st.established[self.seen_est..].iter() {
             if !*dialer {
+                // inbound: the connection the running `Connect` op has just pushed
+                if let Some(c) = self.conns.iter_mut().rev().find(|c| !c.dial_back && c.sid.is_none() && client(c.peer) == *peer && c.observed == *addr) {
+                    c.sid = Some(*sid);
+                }
                 continue;
             }
             if let Some(pos) = self.ok_links.iter().position(|(_, a, p)| a == addr && client(*p) == *peer) {
                 let (l, a, p) = self.ok_links.remove(pos);
                 if self.conns.len() < MAX_CONNS + 4 {
-                    self.conns.push(Conn { peer: p, observed: a, ctl: self.w.links[l].a.clone(), alive: true, dial_back: true });
+                    self.conns.push(Conn { peer: p, observed: a, ctl: self.w.links[l].a.clone(), alive: true, dial_back: true, sid: Some(*sid) });
                 }
             }
         }
@@ -569,6 +678,10 @@ impl Run {
         let n = self.w.n_dials(0);
         for d in self.seen_tdials..n {
             let a = self.w.dial_addr(0, d);
+            if self.harness_dials.contains(&a) {
+                // not a dial-back: Swarm::dial by the harness (never an address of a dial-back command)
+                continue;
+            }
             let known = st.dials.iter().any(|r| match (&r.addrs, r.peer) {
                 (Some(list), Some(p)) => list.iter().any(|x| x == &a || x.clone().with_p2p(p).ok().as_ref() == Some(&a)),
                 _ => false,
@@ -594,6 +707,9 @@ impl Run {
         let from = self.batch_from;
         for (i, r) in self.reqs.iter_mut().enumerate() {
             if r.resp.is_some() {
+                continue;
+            }
+            if r.stalled {
                 continue;
             }
             let Some(s) = r.stream.as_mut() else { continue };
@@ -656,7 +772,7 @@ impl Run {
                 self.settle();
                 self.w.resolve_incoming(k, Some(client(*peer)));
                 let ctl = self.w.incoming[k].ctl.clone();
-                self.conns.push(Conn { peer: *peer, observed: observed.clone(), ctl, alive: true, dial_back: false });
+                self.conns.push(Conn { peer: *peer, observed: observed.clone(), ctl, alive: true, dial_back: false, sid: None });
                 self.settle();
                 if matches!(first_ip(&observed), Some(Protocol::Ip6(_))) {
                     self.labels.insert("conn_observed_ip6");
@@ -669,7 +785,7 @@ impl Run {
                     self.labels.insert("peer_with_connections_from_different_ips");
                 }
             }
-            Op::Request { conn, claim, addrs, hold, abandon } => {
+            Op::Request { conn, claim, addrs, hold, abandon, stall } => {
                 let live = self.live_conns();
                 if live.is_empty() {
                     return;
@@ -711,9 +827,10 @@ impl Run {
                 if claimed != me {
                     self.labels.insert("request_claiming_other_peer_id");
                 }
+                let dial_pending = self.st.lock().unwrap().dials.iter().any(|d| d.peer == Some(me) && d.finished.is_none());
                 let (busy, at_peer, at_global) = {
                     let st = self.st.lock().unwrap();
-                    let busy = st.dials.iter().any(|d| d.peer == Some(me) && d.finished.is_none() && !d.probe_ended_first);
+                    let busy = st.dials.iter().any(|d| d.peer == Some(me) && d.finished.is_none() && d.ended.is_none());
                     let long = !self.cfg.short_period;
                     let at_peer = long && self.accepted.iter().filter(|a| a.peer == me).count() >= self.cfg.peer_max as usize;
                     let at_global = long && self.accepted.len() >= self.cfg.global_max as usize;
@@ -723,6 +840,23 @@ impl Run {
                     self.batch_start = Some(Instant::now());
                 }
                 let mut stream = self.conns[c].ctl.remote_open();
+                let stalled = *stall && !*abandon;
+                if stalled {
+                    // room for the multistream-select answer (20 + 23 bytes) and one more byte
+                    stream.set_capacity_incoming(Some(44));
+                    self.labels.insert("request_stream_stalled");
+                }
+                for (k, l) in ["request_after_reset_of_refused_request_during_dial_back", "request_after_unrelated_outbound_connection_during_dial_back", "request_after_unrelated_dial_failure_during_dial_back"].into_iter().enumerate() {
+                    if self.armed[k].contains(&sender) {
+                        // (after an unrelated dial failure the unchanged server has ended the probe: its dial is what is pending)
+                        let pending = if k == 2 { dial_pending } else { busy };
+                        if pending && claimed == me && !stalled && !*abandon {
+                            self.labels.insert(l);
+                        } else if !pending {
+                            self.armed[k].remove(&sender);
+                        }
+                    }
+                }
                 let _ = stream.write_all(&bytes).now_or_never();
                 self.reqs.push(Req {
                     sender,
@@ -732,6 +866,7 @@ impl Run {
                     resp: None,
                     mixed,
                     attributed: false,
+                    stalled,
                     sent_while_dialing: busy,
                     sent_at_peer_limit: at_peer,
                     sent_at_global_limit: at_global,
@@ -785,6 +920,9 @@ impl Run {
                 if self.st.lock().unwrap().dials.iter().any(|d| d.peer == Some(peer) && d.finished.is_none()) {
                     self.labels.insert("connection_closed_during_dial_back");
                 }
+                if let Some(sid) = self.conns[c].sid {
+                    self.st.lock().unwrap().harness_closed.insert(sid);
+                }
                 self.conns[c].ctl.remote_close();
                 self.conns[c].alive = false;
                 self.settle();
@@ -799,6 +937,84 @@ impl Run {
                 self.conns[c].ctl.address_change(a.clone());
                 self.conns[c].observed = a;
                 self.labels.insert("address_change");
+                self.settle();
+            }
+            Op::Reset { pick } => {
+                let cand: Vec<usize> = self.reqs.iter().enumerate().filter(|(_, r)| r.stream.is_some() && r.resp.is_none()).map(|(i, _)| i).collect();
+                if cand.is_empty() {
+                    return;
+                }
+                let i = cand[vcore::pick(*pick, cand.len())];
+                let sender = self.reqs[i].sender;
+                let me = client(sender);
+                let busy = self.st.lock().unwrap().dials.iter().any(|d| d.peer == Some(me) && d.finished.is_none() && d.ended.is_none());
+                if self.reqs[i].stalled {
+                    self.labels.insert("stalled_request_stream_reset");
+                    if busy && self.reqs[i].sent_while_dialing && self.reqs[i].honest_claim {
+                        self.labels.insert("stalled_stream_of_request_sent_during_dial_back_reset");
+                        self.armed[0].insert(sender);
+                    }
+                } else {
+                    self.labels.insert("unanswered_request_stream_reset");
+                }
+                self.reqs[i].stream = None;
+                self.settle();
+            }
+            Op::ServerDial { peer, how } => {
+                let me = client(*peer);
+                let ip: Protocol<'static> = self
+                    .conns
+                    .iter()
+                    .filter(|c| c.alive && c.peer == *peer && !c.observed.iter().any(|p| matches!(p, Protocol::P2pCircuit)))
+                    .find_map(|c| first_ip(&c.observed).map(|p| p.acquire()))
+                    .unwrap_or(Protocol::Ip4([203, 0, 113, 9].into()));
+                let addr = Multiaddr::empty().with(ip).with(Protocol::Tcp(7000 + self.harness_dials.len() as u16)).with(Protocol::P2p(me));
+                let (busy, clash) = {
+                    let st = self.st.lock().unwrap();
+                    (st.dials.iter().any(|d| d.peer == Some(me) && d.finished.is_none() && d.ended.is_none()), st.dials.iter().any(|d| d.addrs.as_ref().map(|l| l.contains(&addr)).unwrap_or(false)))
+                };
+                if clash || self.harness_dials.len() >= 6 {
+                    return;
+                }
+                let opts = libp2p_swarm::dial_opts::DialOpts::peer_id(me).addresses(vec![addr.clone()]);
+                let opts = if *how == 3 { opts.build() } else { opts.condition(libp2p_swarm::dial_opts::PeerCondition::Always).build() };
+                self.harness_dials.push(addr.clone());
+                let before = self.w.n_dials(0);
+                match self.w.dial(0, opts) {
+                    Err(_) => {
+                        self.labels.insert("server_dial_refused_synchronously");
+                        if busy {
+                            self.labels.insert("unrelated_dial_failed_during_dial_back");
+                            self.armed[2].insert(*peer);
+                        }
+                    }
+                    Ok(_) => {
+                        let d = (before..self.w.n_dials(0)).find(|d| self.w.dial_addr(0, *d) == addr);
+                        match (how, d) {
+                            (0, Some(d)) => {
+                                if let Some(l) = self.w.resolve_ok(0, d, me, None) {
+                                    self.ok_links.push((l, addr.clone(), *peer));
+                                    self.labels.insert("server_dial_connected");
+                                    if busy {
+                                        self.labels.insert("unrelated_outbound_connection_during_dial_back");
+                                        self.armed[1].insert(*peer);
+                                    }
+                                }
+                            }
+                            (1, Some(d)) => {
+                                self.w.resolve_err(0, d);
+                                self.labels.insert("server_dial_failed");
+                                if busy {
+                                    self.labels.insert("unrelated_dial_failed_during_dial_back");
+                                    self.armed[2].insert(*peer);
+                                }
+                            }
+                            _ => {
+                                self.labels.insert("server_dial_left_open");
+                            }
+                        }
+                    }
+                }
                 self.settle();
             }
             Op::Sleep { ms } => {
@@ -886,14 +1102,16 @@ fn client_idx() -> impl Strategy<Value = u8> {
 fn op() -> impl Strategy<Value = Op> {
     prop_oneof![
         4 => (client_idx(), observed_addr()).prop_map(|(peer, observed)| Op::Connect { peer, observed }),
-        12 => (any::<u16>(), proptest::option::weighted(0.08, 0u8..N_CLIENTS), proptest::collection::vec(req_addr(), 0..7), proptest::bool::weighted(0.15), proptest::bool::weighted(0.08))
-            .prop_map(|(conn, claim, mut addrs, hold, abandon)| {
+        12 => (any::<u16>(), proptest::option::weighted(0.08, 0u8..N_CLIENTS), proptest::collection::vec(req_addr(), 0..7), proptest::bool::weighted(0.15), proptest::bool::weighted(0.08), proptest::bool::weighted(0.08))
+            .prop_map(|(conn, claim, mut addrs, hold, abandon, stall)| {
                 if addrs.len() >= 4 {
                     let d = addrs[0].clone();
                     addrs.push(d);
                 }
-                Op::Request { conn, claim, addrs, hold, abandon }
+                Op::Request { conn, claim, addrs, hold, abandon, stall }
             }),
+        1 => prop_oneof![Just(u16::MAX), any::<u16>()].prop_map(|pick| Op::Reset { pick }),
+        1 => (client_idx(), prop_oneof![3 => Just(0u8), 2 => Just(1u8), 2 => Just(2u8), 1 => Just(3u8)]).prop_map(|(peer, how)| Op::ServerDial { peer, how }),
         6 => (any::<u16>(), prop_oneof![3 => Just(0u8), 3 => Just(1u8), 1 => Just(2u8)]).prop_map(|(pick, how)| Op::Resolve { pick, how }),
         2 => any::<u16>().prop_map(|pick| Op::Close { pick }),
         1 => (any::<u16>(), observed_addr()).prop_map(|(pick, observed)| Op::AddrChange { pick, observed }),
@@ -925,7 +1143,7 @@ fn window_case() -> impl Strategy<Value = WCase> {
             if ms > 0 {
                 ops.push(Op::Sleep { ms });
             }
-            ops.push(Op::Request { conn, claim: None, addrs: vec![ReqAddr::Honest { suffix: vec![Comp::Tcp(1)], p2p: None }], hold: false, abandon: false });
+            ops.push(Op::Request { conn, claim: None, addrs: vec![ReqAddr::Honest { suffix: vec![Comp::Tcp(1)], p2p: None }], hold: false, abandon: false, stall: false });
             if resolve {
                 ops.push(Op::Resolve { pick: 0, how: 1 });
             }
@@ -934,8 +1152,52 @@ fn window_case() -> impl Strategy<Value = WCase> {
     })
 }
 
+/// Structured histories around one running dial-back: peer 0 (one or two connections) gets a request
+/// accepted whose dial-back is left unresolved; then, while it is pending,
+///  0: a further request of the peer on a stalled stream (refused; the response cannot be delivered) which the
+///     client then resets, 1: the server's Swarm connects to the peer at an unrelated address, 2: an unrelated
+///     dial of the server to the peer fails (transport error / refused by the default PeerCondition);
+/// then a further request of the peer; generic noise ops in between and after.
+fn probe_case() -> impl Strategy<Value = WCase> {
+    let honest = || Op::Request { conn: 0, claim: None, addrs: vec![ReqAddr::Honest { suffix: vec![Comp::Tcp(1)], p2p: None }], hold: false, abandon: false, stall: false };
+    (
+        (2u8..=3, 1u8..=2, proptest::bool::weighted(0.3)),
+        (0u8..3, proptest::bool::ANY, prop_oneof![Just(0u16), Just(30000u16)], prop_oneof![Just(0u16), Just(30000u16)], prop_oneof![Just(1u8), Just(3u8)]),
+        proptest::collection::vec(op(), 0..3),
+        proptest::collection::vec(op(), 0..2),
+        proptest::collection::vec(op(), 0..6),
+    )
+        .prop_map(move |((global_max, peer_max, only_global), (variant, two_conns, c2, c3, fail_how), noise1, noise2, tail)| {
+            let mut ops = vec![Op::Connect { peer: 0, observed: vec![Comp::Ip4(vcore::gen::PUBLIC_V4[0]), Comp::Tcp(4001)] }];
+            if two_conns {
+                ops.push(Op::Connect { peer: 0, observed: vec![Comp::Ip4(vcore::gen::PUBLIC_V4[1]), Comp::Udp(443), Comp::QuicV1] });
+            }
+            ops.push(Op::Connect { peer: 1, observed: vec![Comp::Ip4(vcore::gen::PUBLIC_V4[2]), Comp::Tcp(4001)] });
+            ops.push(honest());
+            ops.extend(noise1);
+            match variant {
+                0 => {
+                    ops.push(Op::Request { conn: c2, claim: None, addrs: vec![ReqAddr::Honest { suffix: vec![Comp::Tcp(443)], p2p: None }], hold: false, abandon: false, stall: true });
+                    ops.extend(noise2);
+                    ops.push(Op::Reset { pick: u16::MAX });
+                }
+                1 => {
+                    ops.push(Op::ServerDial { peer: 0, how: 0 });
+                    ops.extend(noise2);
+                }
+                _ => {
+                    ops.push(Op::ServerDial { peer: 0, how: fail_how });
+                    ops.extend(noise2);
+                }
+            }
+            ops.push(Op::Request { conn: c3, claim: None, addrs: vec![ReqAddr::Honest { suffix: vec![Comp::Tcp(1)], p2p: None }, ReqAddr::Honest { suffix: vec![Comp::Udp(1), Comp::QuicV1], p2p: Some(0) }], hold: false, abandon: false, stall: false });
+            ops.extend(tail);
+            WCase { cfg: Cfg { global_max, peer_max, max_addrs: 2, only_global, short_period: false }, ops }
+        })
+}
+
 fn wcase() -> impl Strategy<Value = WCase> {
-    prop_oneof![9 => generic_case(), 1 => window_case()]
+    prop_oneof![8 => generic_case(), 1 => window_case(), 2 => probe_case()]
 }
 
 fn generic_case() -> impl Strategy<Value = WCase> {
@@ -950,10 +1212,11 @@ pub fn run_world_part(ctx: &mut Ctx) {
     ctx.assume("behaviour-level half: transport, muxer and AutoNAT clients are simulated (simswarm world with one real Swarm<autonat::v1::Behaviour>; clients are hand-played on raw streams with an independent protobuf encoder); the Swarm, the connection pool / concurrent dial and request-response are trusted");
     ctx.assume("'the IP it observed for the requester' = the first IP component of the remote address of any currently established non-relayed connection of the requester as reported to the behaviour (the server does not distinguish the connection a request arrived on)");
     ctx.assume("a dial-back 'runs' from the ToSwarm::Dial command until the Swarm reports DialFailure or ConnectionEstablished for that connection id");
+    ctx.assume("the connection an accepted request arrived on = the connection whose handler reported the last event to the behaviour before it emitted InboundProbeEvent::Request (the Swarm polls the behaviour dry after every handler event); the known finding new-dial-back-while-dial-of-ended-probe-still-pending is only granted when the harness itself had closed that connection before the server ended the probe with an InboundRequest error");
     ctx.assume("throttling uses real time (web_time::Instant): most cases use a 1 h period (exact oracle), about 20% a 40 ms period with real sleeps (half of them structured sliding-window histories) and a one-sided oracle (only dial-backs that are certainly inside one period are counted)");
     ctx.check(
         "server-world",
-        "config (global max 0..3, per-peer max 0..2, address cap 1..3|16, only_global_ips 25%, period 1h | 40ms real) + 5..24 ops: 2..4 client peers connect from ip4/ip6/relayed/memory addresses (several connections each), send DialRequests (0..8 addresses: honest ones on the connection's IP, the alphabet of the pure sub-check incl. multi-IP / DNS / relay / foreign p2p, duplicates; 8% claim another peer id, 15% batched with the next op, 8% abandon the stream), the harness resolves the server's transport dials ok / error / wrong peer / never, closes connections, changes observed addresses, sleeps; oracle on every ToSwarm::Dial and transport dial; non-trivial = >=1 request refused while a dial-back was ongoing or at a throttle limit, and >=1 accepted dial-back whose request mixed valid and invalid addresses",
+        "config (global max 0..3, per-peer max 0..2, address cap 1..3|16, only_global_ips 25%, period 1h | 40ms real) + 5..24 ops: 2..4 client peers connect from ip4/ip6/relayed/memory addresses (several connections each), send DialRequests (0..8 addresses: honest ones on the connection's IP, the alphabet of the pure sub-check incl. multi-IP / DNS / relay / foreign p2p, duplicates; 8% claim another peer id, 15% batched with the next op, 8% abandon the stream, 8% on a stalled stream whose response cannot be delivered), resets unanswered request streams, lets the server's own Swarm dial a client peer at an unrelated address (connects / fails / refused by PeerCondition / left open), the harness resolves the server's transport dials ok / error / wrong peer / never, closes connections, changes observed addresses, sleeps; 2 of 11 cases are structured: accepted request with unresolved dial-back, then (refused request on a stalled stream + reset | unrelated server dial connects | unrelated server dial fails), then a further request of the peer, with noise ops in between; oracle on every ToSwarm::Dial and transport dial (harness-initiated dials exempt); non-trivial = >=1 request refused while a dial-back was ongoing or at a throttle limit, and >=1 accepted dial-back whose request mixed valid and invalid addresses",
         ctx.n(4_000, 150_000),
         &|| wcase().boxed(),
         &check,
